@@ -154,6 +154,24 @@ func (t *Timer) Stop() bool {
 
 func After(d time.Duration) <-chan time.Time { return NewTimer(d).C }
 
+// AfterFunc is time.AfterFunc: when the timer fires, f runs on a thread of its own (a goroutine of
+// the runtime's in the real thing). What f does is ordered after the AfterFunc call, and after nothing
+// else the calling thread did later.
+func AfterFunc(d time.Duration, f func()) *Timer {
+	t := &Timer{}
+	w := live()
+	if w == nil {
+		return t
+	}
+	cur := w.cur
+	cur.nspawn++
+	pseudo := &Thread{id: cur.id, tid: mix(cur.tid, cur.nspawn), vc: cur.vc.clone(), lastEv: cur.lastEv}
+	cur.vc[cur.id]++
+	t.fire = func(w *World) { w.spawn(pseudo, "afterfunc", f) }
+	t.tm = w.addTimer(d, false, t.fire)
+	return t
+}
+
 // ---------------------------------------------------------------- contexts
 
 type vctx struct {
